@@ -154,6 +154,10 @@ def expression_form(fn):
             if st.value is None:
                 return None
             return sub(st.value)
+        if isinstance(st, ast.Raise) and st.exc is not None and len(stmts) == 1:
+            # a refusing tail: kept as a marker call the rules can recognise
+            return ast.Call(func=ast.Name(id="__raises__", ctx=ast.Load()),
+                            args=[sub(st.exc)], keywords=[])
         if isinstance(st, ast.Assign) and len(st.targets) == 1 and isinstance(
                 st.targets[0], ast.Name):
             name = st.targets[0].id
@@ -174,9 +178,11 @@ def expression_form(fn):
             return ast.IfExp(test=sub(st.test), body=then, orelse=other)
         return None
 
-    if any(isinstance(n, (ast.For, ast.While, ast.Try, ast.With, ast.Raise,
+    if any(isinstance(n, (ast.For, ast.While, ast.Try, ast.With,
                           ast.FunctionDef, ast.Lambda))
            for st in body for n in ast.walk(st)):
+        return None
+    if any(isinstance(n, ast.Raise) for st in body[:-1] for n in ast.walk(st)):
         return None
     # a let-bound name must not be re-assigned and params must not be stored
     return chain(body)
@@ -361,6 +367,8 @@ class Inliner:
                              ast.operator, ast.unaryop, ast.cmpop)):
                     if isinstance(ch, _HOISTABLE):
                         walk(ch, False)
+        if not isinstance(st.value, _HOISTABLE):
+            return None          # comprehension, lambda, conditional, ...
         walk(st.value, True)
         if not found:
             return None
